@@ -2,6 +2,7 @@ import LP.Driver.Scalar
 import LP.Driver.Interval
 import LP.Driver.FSI
 import LP.Driver.FSet
+import LP.Driver.Containers
 import Std.Data.HashMap
 open LP LP.Driver
 
@@ -21,6 +22,9 @@ def checkLine (line : String) : String × String × Verdict :=
         | "di" => checkQI "di" op args r
         | "fsi" => checkFSI op args r
         | "fset" => checkFSet op args r
+        | "hset" => checkHSet args r
+        | "heap" => checkHeap args r
+        | "pvec" => checkPVec args r
         | _ => Verdict.skip s!"unknown family {fam}"
       (idx, fam, v)
     | _ => ("?", "?", .skip "short line")
